@@ -1326,7 +1326,19 @@ func preprocessStylesheet(deviceMediaType, baseUrl string, stylesheetRules []pa.
 				}
 				url = utils.UrlJoin(baseUrl, url, false, "@import")
 				if url != "" {
-					_, err := newCSS(utils.InputUrl(url), "", urlFetcher, false,
+					// guard against cyclic imports (a.css <-> b.css, or a self import):
+					// while [url] is being processed, importing it again is an error
+					alreadyFetched := false
+					guardedFetcher := func(target string) (utils.RemoteRessource, error) {
+						if target == url {
+							if alreadyFetched {
+								return utils.RemoteRessource{}, fmt.Errorf("cyclic @import of %s", url)
+							}
+							alreadyFetched = true
+						}
+						return urlFetcher(target)
+					}
+					_, err := newCSS(utils.InputUrl(url), "", guardedFetcher, false,
 						deviceMediaType, fontConfig, matcher, pageRules, counterStyle)
 					if err != nil {
 						logger.WarningLogger.Printf("Failed to load stylesheet at %s : %s \n", url, err)
